@@ -156,7 +156,7 @@ func c07vRunValues(pool int, prog []c07vOp) (sig, what string) {
 	return "", ""
 }
 
-var c07vMapOps = []string{"putint1", "putint2", "putstr", "putb", "putmap", "nestedput", "remove", "removeif", "clear", "ensurecap", "fromraw"}
+var c07vMapOps = []string{"putint1", "putint2", "putstr", "putb", "putmap", "put2maps", "removem", "nestedput", "remove", "removeif", "clear", "ensurecap", "fromraw"}
 
 func c07vRunMaps(pool int, prog []c07vOp) (sig, what string) {
 	step := -1
@@ -191,6 +191,15 @@ func c07vRunMaps(pool int, prog []c07vOp) (sig, what string) {
 		case "putmap":
 			m.PutEmptyMap("m").PutInt("x", 1)
 			mm["m"] = map[string]any{"x": int64(1)}
+		case "put2maps":
+			// two map-valued entries with different contents (entries whose one-of wrapper is a pointer)
+			m.PutEmptyMap("m").PutInt("x", 1)
+			m.PutEmptyMap("n").PutInt("y", 2)
+			mm["m"] = map[string]any{"x": int64(1)}
+			mm["n"] = map[string]any{"y": int64(2)}
+		case "removem":
+			m.Remove("m")
+			delete(mm, "m")
 		case "nestedput":
 			v, ok := m.Get("m")
 			if !ok || v.Type() != ValueTypeMap {
